@@ -1255,6 +1255,10 @@ fn known_inputs() -> Vec<(String, String)> {
         ("r8:validate-box-string-arg", "# Experimental!\n⊨ [□{3 \"ab\"}] 5".to_string()),
         ("r8:noise-octaves-huge", "# Experimental!\nnoise 1 1e308 ↯1_1 ⇡6".to_string()),
         // still open after the last round
+        ("open:rows-box-empty-huge", "≡□ ↯1e9 []".to_string()),
+        ("open:deduplicate-empty-rows", "◴ °△ 1e10_0".to_string()),
+        ("open:under-pow-backward", "⍜(ⁿ˜4294967296)".to_string()),
+        ("open:un-datetime-overflow", "°datetime [2000 1 1e13]".to_string()),
         ("open:nested-under", format!("{}⊢ [1]", "⍜".repeat(26))),
     ];
     v.into_iter().map(|(n, s)| (n.to_string(), s)).collect()
